@@ -1224,7 +1224,9 @@ class Index:
                 )
                 sha1_writer.close()
         except:
-            f.close()
+            # Discard the partially written lock file; the existing index
+            # must stay in place when writing fails.
+            f.abort()
             raise
 
     def read(self) -> None:
@@ -3634,7 +3636,7 @@ class locked_index:
         try:
             f = SHA1Writer(self._file)
             write_index_dict(f, self._index._byname)
+            f.close()
         except BaseException:
             self._file.abort()
-        else:
-            f.close()
+            raise
